@@ -103,7 +103,7 @@ func (e *C13) Run(c *core.Ctx, idx int) {
 		}
 		bad = append(bad, compareXMP(rec.Exp, got)...)
 		if len(bad) > 0 {
-			c.Rec.Violation("xmp:value:"+firstField(bad[0]), fmt.Sprintf("ParseXmp of a well-formed packet (form %d, %d props, ws=%q quote=%c unknown=%d split=%v): %s", form, len(rec.Props), st.WS, st.Quote, st.Unknown, st.SplitDesc, joinMax(bad, 4)),
+			c.Rec.Violation("xmp:value:"+firstField(bad[0]), fmt.Sprintf("ParseXmp of a well-formed packet (form %d, %d props, ws=%q endws=%q quote=%c unknown=%d split=%v): %s", form, len(rec.Props), st.WS, st.EndTagWS, st.Quote, st.Unknown, st.SplitDesc, joinMax(bad, 4)),
 				map[string]any{"form": form, "style": fmt.Sprintf("%+v", st), "mismatches": bad, "packet": clipStr(string(b), 3000)})
 		}
 		if len(rec.Exp.Names) >= 3 && st.Unknown > 0 {
